@@ -112,4 +112,48 @@ theorem token_clean {t : Str} (h : Token t = true) : Clean t = true := by
       have := List.all_eq_true.mp h.2 d hd
       simpa using this
 
+
+theorem splitAux_blank_end {ws : Str} (h : isBlank ws = true) : ∀ (s cur : Str), splitAux (s ++ ws) cur = splitAux s cur := by
+  have hnil : splitAux ws [] = [] := by
+    have := splitAux_blank_nil h []
+    simpa [splitAux] using this
+  intro s
+  induction s with
+  | nil =>
+    intro cur
+    cases cur with
+    | nil => simpa [splitAux] using hnil
+    | cons d r =>
+      cases ws with
+      | nil => rfl
+      | cons c ws' =>
+        simp only [isBlank, List.all_cons, Bool.and_eq_true] at h
+        have h2 : splitAux ws' [] = [] := by
+          have := splitAux_blank_nil (ws := ws') (by simpa [isBlank] using h.2) []
+          simpa [splitAux] using this
+        simp [splitAux, h.1, h2]
+  | cons c s ih =>
+    intro cur
+    simp only [List.cons_append, splitAux]
+    split
+    · split <;> simp [ih]
+    · exact ih _
+
+/-- `split` ignores surrounding whitespace -/
+theorem split_strip (s : Str) : split (strip s) = split s := by
+  obtain ⟨ws1, h1, hb1⟩ := lstrip_decomp s
+  obtain ⟨ws2, h2, hb2⟩ := rstrip_decomp (lstrip s)
+  have hs : s = ws1 ++ (strip s ++ ws2) := by
+    unfold strip
+    rw [← h2]; exact h1
+  conv => rhs; rw [hs]
+  unfold split
+  rw [splitAux_blank_nil hb1, splitAux_blank_end hb2]
+
+theorem split_rstrip (s : Str) : split (rstrip s) = split s := by
+  obtain ⟨ws, h, hb⟩ := rstrip_decomp s
+  conv => rhs; rw [h]
+  unfold split
+  rw [splitAux_blank_end hb]
+
 end Midgard.Text
